@@ -38,6 +38,7 @@ THEOREMS = [
     "Scenic.C20.opposite_involutive",
     "Scenic.C20.adjacent_symmetric",
     "Scenic.C20.maneuver_path",
+    "Scenic.C20.group_link_from_lanes",
     "Scenic.C20.lookup_sound",
     "Scenic.C20.lookup_first",
     "Scenic.C20.lookup_complete",
@@ -130,9 +131,11 @@ LOOKUPS = ["elementAt", "roadAt", "laneAt", "laneSectionAt", "laneGroupAt", "int
 # the rule table of Model/Roads.lean, in order: short labels used in keys / messages (length re-checked against
 # the driver's `rules` answer on every run)
 CHILD_TOL_HARD = 0.5  # the code's own construction-time containment tolerance (roads.py: containsRegion(..., 0.5))
-# the recorded finding `direction:centerline-backstep` is about centimetre-long backward steps of a centreline at the
-# joints of the reference line (observed 0.1 - 8 cm); a longer backward run is a different defect and gets another key
-BACKSTEP_MAX = 0.10
+# the recorded finding `direction:centerline-backstep` is about short backward steps of a lane centreline at the joints
+# of the reference-line pieces (length = lateral offset x heading change of the chords at the joint; on the 18 shipped maps
+# 3747 of them, median 3.7 cm, 99 % below 0.46 m, longest 0.965 m); a longer backward run is a different defect (e.g. lane
+# sections concatenated in the wrong order) and gets another key
+BACKSTEP_MAX = 1.5
 
 
 
@@ -951,7 +954,8 @@ def process_map(job):
                 seg = a if np.hypot(*(p[a + 1] - p[a])) < np.hypot(*(p[b + 1] - p[b])) else b
                 long_ = np.hypot(*(p[seg + 1] - p[seg])) > BACKSTEP_MAX
                 nlong += bool(long_)
-                H("centreline_backstep_length", "<=1cm" if np.hypot(*(p[seg + 1] - p[seg])) <= 0.01 else "<=10cm" if not long_ else ">10cm")
+                H("centreline_backstep_length", "<=1cm" if np.hypot(*(p[seg + 1] - p[seg])) <= 0.01 else "<=10cm" if np.hypot(*(p[seg + 1] - p[seg])) <= 0.1
+                  else "<=1.5m" if not long_ else ">1.5m")
                 if nb <= 3 or (long_ and nlong <= 5):
                     mx, my = (p[seg] + p[seg + 1]) / 2
                     ch = coarse_heading(p, mx, my, span=2.0)
